@@ -15,6 +15,8 @@
 import TypedpyModel.Lemmas.PyLex
 import TypedpyModel.Lemmas.SchemaToCode
 import TypedpyModel.Lemmas.SchemaEmit
+import TypedpyModel.Lemmas.DefOrder
+import TypedpyModel.Lemmas.TextClean
 namespace Typedpy.C09
 open Typedpy Typedpy.PyLex
 
@@ -343,20 +345,26 @@ def always_compiles_statement : Prop :=
   ∀ (X : Ora) (O : EOra) (write : Bool) (defs : List ClassSrc) (main : ClassSrc),
     OraOk O → recognise X (moduleText O write defs main) = .accept
 
+/-- the emitted text never contains a NUL or a carriage return (the only way in would be a NUL in a
+    description: `repr` escapes both, `_docstring_text` escapes CR) -/
+theorem emitted_module_clean (O : EOra) (hO : OraOk O) (write : Bool) (defs : List ClassSrc) (main : ClassSrc)
+    (hd : ∀ c ∈ defs, classSrcOk c = true) (hm : classSrcOk main = true) :
+    textClean (moduleText O write defs main) = true :=
+  moduleText_clean O write defs main (fun c hc => classOk_of_src O hO c (hd c hc)) (classOk_of_src O hO main hm)
+
 /-- PARTIAL: the emitted module is accepted by the recogniser for ALL definition lists and main
     schemas (any depth, any strings in patterns / enums / defaults / required / descriptions) with
     the decidable exclusions `classSrcOk` (class, `$ref` and property names are ASCII identifiers
     that are not keywords — property names also not `__debug__` and distinct as keyword arguments;
-    enum members and defaults are JSON values; no NUL in a description), `textClean` (no NUL / CR
-    character in the text) and `nestOk` (bracket nesting within CPython's 200 levels) -/
+    enum members and defaults are JSON values; no NUL in a description) and `nestOk` (bracket
+    nesting within CPython's 200 levels); `OraOk`: `repr(float)` answers with decimal literals -/
 theorem emitted_module_accepted_partial (X : Ora) (O : EOra) (hO : OraOk O) (write : Bool)
     (defs : List ClassSrc) (main : ClassSrc)
     (hd : ∀ c ∈ defs, classSrcOk c = true) (hm : classSrcOk main = true)
-    (hclean : textClean (moduleText O write defs main) = true)
     (hnest : nestOk X (moduleText O write defs main) = true) :
     recognise X (moduleText O write defs main) = .accept :=
   recognise_module X O write defs main (fun c hc => classOk_of_src O hO c (hd c hc))
-    (classOk_of_src O hO main hm) hclean hnest
+    (classOk_of_src O hO main hm) (emitted_module_clean O hO write defs main hd hm) hnest
 
 /-- a concrete oracle for the examples: every non-ASCII character printable, every float `1.5` -/
 def exOra : EOra := ⟨fun _ => true, fun _ => ['1', '.', '5']⟩
@@ -412,6 +420,25 @@ theorem accepted_example :
     textClean (moduleText exOra true [exDef] exMain) = true ∧
     nestOk Ora.ascii (moduleText exOra true [exDef] exMain) = true ∧
     recognise Ora.ascii (moduleText exOra true [exDef] exMain) = .accept := by decide
+
+/-! ## order of the definitions (`exec:forward-ref`) -/
+
+/-- emission in depth-first dependency order (`topoOrder`, the order of the proposed repair): for
+    EVERY definitions table whose references have no cycle, every definition is emitted, and each
+    one after all the definitions it refers to (the class body is evaluated when the class
+    statement runs, so no `$ref` is a NameError) -/
+theorem definitions_defined_before_use (defs : Defs) (hac : Acyclic defs) :
+    definedBeforeUse defs (topoOrder defs).reverse ∧ ∀ n ∈ defs.map (·.1), n ∈ topoOrder defs :=
+  topoOrder_ok defs hac
+
+/-- the dict-order emission has the counterexample (`A` refers to the later `B`); the depth-first
+    order emits `B` first -/
+theorem counterexample_dict_order_forward_ref :
+    refsOrdered [] [("A", .obj [("x", .ref "B")] [] (some ["x"]) true),
+                    ("B", .obj [("y", .num true none none none false)] [] (some ["y"]) true)] = false ∧
+    topoOrder [("A", .obj [("x", .ref "B")] [] (some ["x"]) true),
+               ("B", .obj [("y", .num true none none none false)] [] (some ["y"]) true)] = ["B", "A"] :=
+  dict_order_counterexample
 
 /-! ## non-vacuity -/
 
